@@ -18,6 +18,7 @@ structure Case where
   cache : List (Nat × Obs)
   ops : List (Op Nat)
   racing : Bool := false
+  crd : Option (List Bool) := none     -- input field "crd" (absent in older corpus lines): object i is a CRD id
 
 def parseCase (i : Json) : Except String Case := do
   let cond := if (← jint i "cond") == 0 then Cond.allCurrent else Cond.allNotFound
@@ -46,7 +47,11 @@ def parseCase (i : Json) : Except String Case := do
     -- k-th); the pending set is locked for the whole delivery, so it is the deadline followed by the update
     | "tu" => return [Op.timeout, Op.update (← a[2]!.getNat?) (← obsOfJson a[3]!)]
     | _ => return [Op.cancel])
-  return { cond := cond, n := objs.length, mgr := mgr, cache := cache, ops := ops.flatten,
+  let crd ← match jopt i "crd" with
+    | none => pure none
+    | some Json.null => pure none
+    | some cj => do pure (some (← (← asList cj).mapM (fun b => b.getBool?)))
+  return { cond := cond, n := objs.length, mgr := mgr, cache := cache, ops := ops.flatten, crd := crd,
            racing := opsJ.any (fun op => match op.getArr? with | .ok a => a[0]! == Json.str "tu" | _ => false) }
 
 def evsJson (l : List (Nat × WEv)) : Json := Json.arr (l.map (fun (i, e) => Json.arr #[(i : Int), evN e])).toArray
@@ -59,8 +64,11 @@ def modelOut (c : Case) : Json :=
       let s' := step acc.1 op
       (s', acc.2 ++ [evsJson (s'.events.drop acc.1.events.length)])) (s0, [])
   let recon := ids.map (fun i => match sN.mgr.find? i with | some r => (C19.rcN r.reconcile : Json) | none => ((-1 : Int) : Json))
-  Json.mkObj [("start", evsJson s0.events), ("ops", Json.arr per.toArray), ("recon", Json.arr recon.toArray),
-              ("ended", sN.cancelled), ("late", Json.arr #[])]
+  Json.mkObj ([("start", evsJson s0.events), ("ops", Json.arr per.toArray), ("recon", Json.arr recon.toArray),
+              ("ended", sN.cancelled), ("late", Json.arr #[])] ++
+    (match c.crd with
+     | none => []
+     | some flags => [("resets", ((resets (fun i => flags.getD i false) sN : Nat) : Json))]))
 
 /-! The property predicate, evaluated on the implementation's events.  It re-plays the observation feed itself
 (latest observation per object) and never calls the model's `start`/`statusUpdate`. -/
@@ -163,6 +171,15 @@ def waitSpec (c : Case) (o : Json) : Except String (Bool × String) := do
   -- a phase ends early only after a moment at which nothing was pending
   if ended && !explicitEnd && !nonePendingMoment then return (false, "phase ended while objects were pending")
   if !ended && (nonePendingMoment || explicitEnd) then return (false, "phase did not end")
+  -- the RESTMapper is reset (once) iff the phase ended and contained a CRD that was not skipped; never otherwise
+  match c.crd with
+  | none => pure ()
+  | some flags =>
+    let resets ← (← jget o "resets").getNat?
+    let crdNotSkipped := ids.any (fun i => flags.getD i false && !(actSkipped c.cond (recOf c i)))
+    let want := if ended && crdNotSkipped then 1 else 0
+    if resets != want then
+      return (false, s!"RESTMapper reset {resets} times; phase ended: {ended}, contains a CRD that was not skipped: {crdNotSkipped}")
   -- recorded reconcile state = last event
   for i in ids do
     match recOf c i, lastOf hist i with
@@ -183,7 +200,17 @@ def handleWait : Handler := fun i o => do
     | .ok l => l.map (fun e => s!"wait:start-ev{e.2}")
     | .error _ => []
   return { model := m, agree := m == o, spec := spec, specModel := specM, nontrivial := c.ops.length ≥ 1, note := why,
-           tags := (kinds ++ evKinds).eraseDups ++ (if c.racing then ["wait:update-during-timeout-delivery"] else []) ++ [s!"wait:objs{c.n}", if c.cond = .allCurrent then "wait:AllCurrent" else "wait:AllNotFound"],
+           tags := (kinds ++ evKinds).eraseDups ++ (if c.racing then ["wait:update-during-timeout-delivery"] else []) ++
+             (match c.crd with
+              | none => []
+              | some flags =>
+                let ids := List.range c.n
+                let anyCrd := ids.any (fun i => flags.getD i false)
+                let live := ids.any (fun i => flags.getD i false && !(actSkipped c.cond (recOf c i)))
+                let ended := jboolD m "ended" false
+                ["wait:crd-field"] ++ (if anyCrd then ["wait:has-crd"] else []) ++ (if anyCrd && !live then ["wait:all-crds-skipped"] else []) ++
+                (if live && ended then ["wait:mapper-reset"] else []) ++ (if live && !ended then ["wait:crd-but-not-ended"] else [])) ++
+             [s!"wait:objs{c.n}", if c.cond = .allCurrent then "wait:AllCurrent" else "wait:AllNotFound"],
            region := none }
 
 end CliUtils.Drv.C06
